@@ -2,6 +2,7 @@ package rules
 
 import (
 	"go/ast"
+	"go/token"
 	"go/types"
 	"strings"
 
@@ -13,24 +14,1004 @@ import (
 
 const hs = "pkg/object/httpserver"
 
+// ---------------------------------------------------------------------------------------
+// Roles: the types, fields and functions of the router are resolved by what they are
+// (types of fields, signatures, what a function calls), the current name is only a tie-breaker.
+
+type muxRoles struct {
+	routeT, instT, ruleT, pathT *types.Named
+
+	codeF, rpathF                                   *types.Var // route{code, path}
+	rulesF, pathsF, headersF                        *types.Var // muxInstance.rules, muxRule.paths, MuxPath.headers
+	instFilterF, ruleFilterF, pathFilterF           *types.Var // *ipfilter.IPFilter of each level
+	instChainF, ruleChainF, pathChainF              *types.Var // *ipfilter.IPFilters of each level
+	cacheF                                          *types.Var // muxInstance.cache
+	backendF, limitF                                *types.Var // MuxPath fields initialised from Path.Backend / Path.ClientMaxBodySize
+	filterT, filtersT, filterSpecT, requestT, specT *types.Named
+}
+
+func muxDerefNamed(t types.Type) *types.Named {
+	if p, ok := t.(*types.Pointer); ok {
+		t = p.Elem()
+	}
+	n, _ := t.(*types.Named)
+	return n
+}
+
+func muxIsPtrTo(t types.Type, n *types.Named) bool {
+	p, ok := t.(*types.Pointer)
+	if !ok || n == nil {
+		return false
+	}
+	m, ok := p.Elem().(*types.Named)
+	return ok && m.Obj() == n.Obj()
+}
+
+func muxIsSliceOfPtrTo(t types.Type, n *types.Named) bool {
+	s, ok := t.(*types.Slice)
+	return ok && muxIsPtrTo(s.Elem(), n)
+}
+
+// muxStructFields returns the fields of a named struct type satisfying pred.
+func muxStructFields(n *types.Named, pred func(v *types.Var) bool) []*types.Var {
+	if n == nil {
+		return nil
+	}
+	st, ok := n.Underlying().(*types.Struct)
+	if !ok {
+		return nil
+	}
+	var out []*types.Var
+	for i := 0; i < st.NumFields(); i++ {
+		if pred(st.Field(i)) {
+			out = append(out, st.Field(i))
+		}
+	}
+	return out
+}
+
+// muxOneField picks the field satisfying pred; when several do, the one called prefer.
+func muxOneField(n *types.Named, prefer string, pred func(v *types.Var) bool) *types.Var {
+	fs := muxStructFields(n, pred)
+	if len(fs) == 1 {
+		return fs[0]
+	}
+	for _, f := range fs {
+		if f.Name() == prefer {
+			return f
+		}
+	}
+	return nil
+}
+
+// muxStructsWith returns the named struct types of the package having a field satisfying pred.
+func muxStructsWith(scope *types.Scope, pred func(v *types.Var) bool) []*types.Named {
+	var out []*types.Named
+	for _, name := range scope.Names() {
+		tn, ok := scope.Lookup(name).(*types.TypeName)
+		if !ok || tn.IsAlias() {
+			continue
+		}
+		n, ok := tn.Type().(*types.Named)
+		if !ok {
+			continue
+		}
+		if len(muxStructFields(n, pred)) > 0 {
+			out = append(out, n)
+		}
+	}
+	return out
+}
+
+func muxPickNamed(ns []*types.Named, prefer string) *types.Named {
+	if len(ns) == 1 {
+		return ns[0]
+	}
+	for _, n := range ns {
+		if n.Obj().Name() == prefer {
+			return n
+		}
+	}
+	return nil
+}
+
+// muxRolesOf resolves the router's types and fields; a missing role is a checker error.
+func muxRolesOf(c *core.Ctx, rule string) *muxRoles {
+	pkg := c.Prog.Pkg(hs)
+	if pkg == nil {
+		c.Errorf("%s: anchor: package %s not loaded", rule, hs)
+		return nil
+	}
+	ro := &muxRoles{}
+	ro.filterT, ro.filtersT, ro.filterSpecT = namedType(c, ipf, "IPFilter"), namedType(c, ipf, "IPFilters"), namedType(c, ipf, "Spec")
+	ro.requestT = namedType(c, "pkg/protocols/httpprot", "Request")
+	ro.pathT = namedType(c, hs, "MuxPath")
+	ro.specT = namedType(c, hs, "Spec")
+	if ro.filterT == nil || ro.filtersT == nil || ro.pathT == nil || ro.requestT == nil {
+		return nil
+	}
+	scope := pkg.Types.Scope()
+	ro.routeT = muxPickNamed(muxStructsWith(scope, func(v *types.Var) bool { return muxIsPtrTo(v.Type(), ro.pathT) }), "route")
+	ro.ruleT = muxPickNamed(muxStructsWith(scope, func(v *types.Var) bool { return muxIsSliceOfPtrTo(v.Type(), ro.pathT) }), "muxRule")
+	if ro.ruleT != nil {
+		ro.instT = muxPickNamed(muxStructsWith(scope, func(v *types.Var) bool { return muxIsSliceOfPtrTo(v.Type(), ro.ruleT) }), "muxInstance")
+	}
+	if ro.routeT == nil || ro.ruleT == nil || ro.instT == nil {
+		c.Errorf("%s: anchor: cannot resolve the router's types (route = struct with a *MuxPath field, rule = struct with []*MuxPath, instance = struct with []*rule)", rule)
+		return nil
+	}
+	ro.rpathF = muxOneField(ro.routeT, "path", func(v *types.Var) bool { return muxIsPtrTo(v.Type(), ro.pathT) })
+	ro.codeF = muxOneField(ro.routeT, "code", func(v *types.Var) bool {
+		b, ok := v.Type().Underlying().(*types.Basic)
+		return ok && b.Info()&types.IsInteger != 0
+	})
+	ro.rulesF = muxOneField(ro.instT, "rules", func(v *types.Var) bool { return muxIsSliceOfPtrTo(v.Type(), ro.ruleT) })
+	ro.pathsF = muxOneField(ro.ruleT, "paths", func(v *types.Var) bool { return muxIsSliceOfPtrTo(v.Type(), ro.pathT) })
+	ro.headersF = muxOneField(ro.pathT, "headers", func(v *types.Var) bool {
+		s, ok := v.Type().(*types.Slice)
+		if !ok {
+			return false
+		}
+		n := muxDerefNamed(s.Elem())
+		return n != nil && n.Obj().Name() == "Header" && n.Obj().Pkg() == pkg.Types
+	})
+	isFilter := func(v *types.Var) bool { return muxIsPtrTo(v.Type(), ro.filterT) }
+	isChain := func(v *types.Var) bool { return muxIsPtrTo(v.Type(), ro.filtersT) }
+	ro.instFilterF, ro.ruleFilterF, ro.pathFilterF = muxOneField(ro.instT, "ipFilter", isFilter), muxOneField(ro.ruleT, "ipFilter", isFilter), muxOneField(ro.pathT, "ipFilter", isFilter)
+	ro.instChainF, ro.ruleChainF, ro.pathChainF = muxOneField(ro.instT, "ipFilterChain", isChain), muxOneField(ro.ruleT, "ipFilterChain", isChain), muxOneField(ro.pathT, "ipFilterChain", isChain)
+	ro.cacheF = muxOneField(ro.instT, "cache", func(v *types.Var) bool {
+		n := muxDerefNamed(v.Type())
+		return n != nil && n.Obj().Pkg() != nil && strings.HasSuffix(n.Obj().Pkg().Path(), "hashicorp/golang-lru")
+	})
+	for what, v := range map[string]*types.Var{"route.code": ro.codeF, "route.path": ro.rpathF, "instance.rules": ro.rulesF, "rule.paths": ro.pathsF, "path.headers": ro.headersF,
+		"instance filter": ro.instFilterF, "rule filter": ro.ruleFilterF, "path filter": ro.pathFilterF, "path filter chain": ro.pathChainF, "instance filter chain": ro.instChainF} {
+		if v == nil {
+			c.Errorf("%s: anchor: cannot resolve the field playing the role %q", rule, what)
+			return nil
+		}
+	}
+	// MuxPath fields by the exported spec field they are initialised from
+	if pt := muxNamedTypeOpt(pkg.Types, "Path"); pt != nil {
+		ro.backendF = muxFieldInitFrom(c, ro.pathT, muxOneField(pt, "Backend", func(v *types.Var) bool { return v.Name() == "Backend" }))
+		ro.limitF = muxFieldInitFrom(c, ro.pathT, muxOneField(pt, "ClientMaxBodySize", func(v *types.Var) bool { return v.Name() == "ClientMaxBodySize" }))
+	}
+	return ro
+}
+
+func muxNamedTypeOpt(pkg *types.Package, name string) *types.Named {
+	if o := pkg.Scope().Lookup(name); o != nil {
+		n, _ := o.Type().(*types.Named)
+		return n
+	}
+	return nil
+}
+
+// muxFieldInitFrom finds the field of struct type typ that is initialised (composite literal
+// or assignment) from a selection of the field src.
+func muxFieldInitFrom(c *core.Ctx, typ *types.Named, src *types.Var) *types.Var {
+	pkg := c.Prog.Pkg(hs)
+	if pkg == nil || typ == nil || src == nil {
+		return nil
+	}
+	info := pkg.TypesInfo
+	isSrc := func(e ast.Expr) bool {
+		sel, ok := ast.Unparen(e).(*ast.SelectorExpr)
+		if !ok {
+			return false
+		}
+		s := info.Selections[sel]
+		return s != nil && s.Obj() == src
+	}
+	found := map[*types.Var]bool{}
+	fieldNamed := func(name string) *types.Var {
+		return muxOneField(typ, name, func(v *types.Var) bool { return v.Name() == name })
+	}
+	for _, file := range pkg.Syntax {
+		ast.Inspect(file, func(n ast.Node) bool {
+			switch x := n.(type) {
+			case *ast.CompositeLit:
+				if tv, ok := info.Types[x]; ok && muxDerefNamed(tv.Type) != nil && muxDerefNamed(tv.Type).Obj() == typ.Obj() {
+					for _, el := range x.Elts {
+						if kv, ok := el.(*ast.KeyValueExpr); ok && isSrc(kv.Value) {
+							if k, ok := kv.Key.(*ast.Ident); ok {
+								if f := fieldNamed(k.Name); f != nil {
+									found[f] = true
+								}
+							}
+						}
+					}
+				}
+			case *ast.AssignStmt:
+				if len(x.Lhs) == len(x.Rhs) {
+					for i, l := range x.Lhs {
+						if sel, ok := ast.Unparen(l).(*ast.SelectorExpr); ok && isSrc(x.Rhs[i]) {
+							if s := info.Selections[sel]; s != nil {
+								if v, ok := s.Obj().(*types.Var); ok && v.IsField() && muxDerefNamed(s.Recv()) != nil && muxDerefNamed(s.Recv()).Obj() == typ.Obj() {
+									found[v] = true
+								}
+							}
+						}
+					}
+				}
+			}
+			return true
+		})
+	}
+	if len(found) == 1 {
+		for f := range found {
+			return f
+		}
+	}
+	return nil
+}
+
+// muxFuncByRole picks the function of package rel satisfying role; several candidates are resolved
+// by the preferred name, otherwise the anchor is ambiguous (nil, n).
+func muxFuncByRole(c *core.Ctx, rel, prefer string, role func(g *flow.Func, fd *ast.FuncDecl) bool) (*flow.Func, int) {
+	cands := funcsByRole(c, rel, role)
+	if len(cands) == 1 {
+		return cands[0], 1
+	}
+	for _, g := range cands {
+		if fd, ok := g.Node.(*ast.FuncDecl); ok && fd.Name.Name == prefer {
+			return g, len(cands)
+		}
+	}
+	return nil, len(cands)
+}
+
+func muxFuncObj(g *flow.Func) *types.Func {
+	if fd, ok := g.Node.(*ast.FuncDecl); ok {
+		fo, _ := g.Info.Defs[fd.Name].(*types.Func)
+		return fo
+	}
+	return nil
+}
+
+func muxRecvNamed(fo *types.Func) *types.Named {
+	sig, ok := fo.Type().(*types.Signature)
+	if !ok || sig.Recv() == nil {
+		return nil
+	}
+	return muxDerefNamed(sig.Recv().Type())
+}
+
+func muxSameNamed(a, b *types.Named) bool { return a != nil && b != nil && a.Obj() == b.Obj() }
+
+// muxFuncConstruct renders the construct name of a resolved function.
+func muxFuncConstruct(g *flow.Func) string {
+	fd, ok := g.Node.(*ast.FuncDecl)
+	if !ok {
+		return g.Name
+	}
+	return declName(g.Pkg, fd)
+}
+
+// muxReach is reach() that does not descend into the given (opaque) callees.
+func muxReach(f *flow.Func, depth int, opaque map[types.Object]bool) []*flow.Func {
+	if f == nil {
+		return nil
+	}
+	out := []*flow.Func{f}
+	seen := map[*ast.BlockStmt]bool{f.Body: true}
+	frontier := []*flow.Func{f}
+	for d := 0; d < depth && len(frontier) > 0; d++ {
+		var next []*flow.Func
+		for _, g := range frontier {
+			ast.Inspect(g.Body, func(n ast.Node) bool {
+				call, ok := n.(*ast.CallExpr)
+				if !ok {
+					return true
+				}
+				fo, ok := g.Callee(call).(*types.Func)
+				if !ok || fo.Pkg() != g.Pkg.Types || opaque[fo.Origin()] {
+					return true
+				}
+				fd := declOf(g.Pkg, fo)
+				if fd == nil || seen[fd.Body] {
+					return true
+				}
+				seen[fd.Body] = true
+				h := flow.NewFunc(g.Pkg, fd)
+				out = append(out, h)
+				next = append(next, h)
+				return true
+			})
+		}
+		frontier = next
+	}
+	return out
+}
+
+// muxReachCalls reports whether the reach of g (depth levels) contains a call satisfying pred.
+func muxReachCalls(g *flow.Func, depth int, pred func(h *flow.Func, call *ast.CallExpr) bool) bool {
+	found := false
+	inspectReach(g, depth, func(h *flow.Func, n ast.Node) bool {
+		if call, ok := n.(*ast.CallExpr); ok && !found && pred(h, call) {
+			found = true
+		}
+		return !found
+	})
+	return found
+}
+
+// ---------------------------------------------------------------------------------------
+// Value flow over a set of functions of one package (flow-insensitive): where may the value of
+// an expression come from — through locals, parameters (all call sites) and results of calls.
+
+type muxDefSite struct {
+	expr  ast.Expr      // x = expr
+	call  *ast.CallExpr // x, y = call(): position idx
+	idx   int
+	rng   *ast.RangeStmt // key / value of a range statement
+	isKey bool
+	other bool // anything else (inc/dec, op-assign, type switch ...)
+	zero  bool // `var x T` without a value
+}
+
+type muxParamRef struct {
+	fn  *types.Func
+	idx int // -1 = receiver
+}
+
+type muxFlow struct {
+	fns     []*flow.Func
+	info    *types.Info
+	defs    map[types.Object][]muxDefSite
+	param   map[types.Object]muxParamRef
+	fnOf    map[*types.Func]*flow.Func
+	sites   map[*types.Func][]reachCall
+	rets    map[*types.Func][]*ast.ReturnStmt
+	results map[*types.Func][]*ast.Ident
+	stop    map[types.Object]bool
+	ident   map[types.Object]*ast.Ident // a defining identifier per object (for rendering)
+}
+
+func newMuxFlow(fns []*flow.Func) *muxFlow {
+	vf := &muxFlow{fns: fns, defs: map[types.Object][]muxDefSite{}, param: map[types.Object]muxParamRef{}, fnOf: map[*types.Func]*flow.Func{},
+		sites: map[*types.Func][]reachCall{}, rets: map[*types.Func][]*ast.ReturnStmt{}, results: map[*types.Func][]*ast.Ident{},
+		stop: map[types.Object]bool{}, ident: map[types.Object]*ast.Ident{}}
+	if len(fns) == 0 {
+		return vf
+	}
+	vf.info = fns[0].Info
+	info := vf.info
+	objOf := func(id *ast.Ident) types.Object {
+		if o := info.Defs[id]; o != nil {
+			vf.ident[o] = id
+			return o
+		}
+		return info.Uses[id]
+	}
+	for _, g := range fns {
+		fo := muxFuncObj(g)
+		if fo == nil {
+			continue
+		}
+		vf.fnOf[fo] = g
+		fd := g.Node.(*ast.FuncDecl)
+		if fd.Recv != nil && len(fd.Recv.List) == 1 && len(fd.Recv.List[0].Names) == 1 {
+			if o := objOf(fd.Recv.List[0].Names[0]); o != nil {
+				vf.param[o] = muxParamRef{fo, -1}
+			}
+		}
+		i := 0
+		for _, fld := range fd.Type.Params.List {
+			if len(fld.Names) == 0 {
+				i++
+			}
+			for _, nm := range fld.Names {
+				if o := objOf(nm); o != nil {
+					vf.param[o] = muxParamRef{fo, i}
+				}
+				i++
+			}
+		}
+		if fd.Type.Results != nil {
+			named := true
+			var ids []*ast.Ident
+			for _, fld := range fd.Type.Results.List {
+				if len(fld.Names) == 0 {
+					named = false
+				}
+				for _, nm := range fld.Names {
+					objOf(nm)
+					ids = append(ids, nm)
+				}
+			}
+			if named {
+				vf.results[fo] = ids
+			}
+		}
+	}
+	addDef := func(l ast.Expr, d muxDefSite) {
+		id, ok := ast.Unparen(l).(*ast.Ident)
+		if !ok || id.Name == "_" {
+			return
+		}
+		if o := objOf(id); o != nil {
+			vf.defs[o] = append(vf.defs[o], d)
+		}
+	}
+	for _, g := range fns {
+		fo := muxFuncObj(g)
+		lits := 0
+		var stack []ast.Node
+		ast.Inspect(g.Body, func(n ast.Node) bool {
+			if n == nil {
+				if _, ok := stack[len(stack)-1].(*ast.FuncLit); ok {
+					lits--
+				}
+				stack = stack[:len(stack)-1]
+				return true
+			}
+			stack = append(stack, n)
+			switch x := n.(type) {
+			case *ast.FuncLit:
+				lits++
+			case *ast.ReturnStmt:
+				if lits == 0 && fo != nil {
+					vf.rets[fo] = append(vf.rets[fo], x)
+				}
+			case *ast.AssignStmt:
+				switch {
+				case x.Tok != token.ASSIGN && x.Tok != token.DEFINE:
+					for _, l := range x.Lhs {
+						addDef(l, muxDefSite{other: true})
+					}
+				case len(x.Lhs) == len(x.Rhs):
+					for i, l := range x.Lhs {
+						addDef(l, muxDefSite{expr: x.Rhs[i]})
+					}
+				case len(x.Rhs) == 1:
+					call, _ := ast.Unparen(x.Rhs[0]).(*ast.CallExpr)
+					for i, l := range x.Lhs {
+						if call != nil {
+							addDef(l, muxDefSite{call: call, idx: i})
+						} else {
+							addDef(l, muxDefSite{other: true})
+						}
+					}
+				}
+			case *ast.ValueSpec:
+				for i, nm := range x.Names {
+					switch {
+					case len(x.Values) == len(x.Names):
+						addDef(nm, muxDefSite{expr: x.Values[i]})
+					case len(x.Values) == 1:
+						if call, ok := ast.Unparen(x.Values[0]).(*ast.CallExpr); ok {
+							addDef(nm, muxDefSite{call: call, idx: i})
+						} else {
+							addDef(nm, muxDefSite{other: true})
+						}
+					case len(x.Values) == 0:
+						addDef(nm, muxDefSite{zero: true})
+					default:
+						addDef(nm, muxDefSite{other: true})
+					}
+				}
+			case *ast.IncDecStmt:
+				addDef(x.X, muxDefSite{other: true})
+			case *ast.RangeStmt:
+				if x.Key != nil {
+					addDef(x.Key, muxDefSite{rng: x, isKey: true})
+				}
+				if x.Value != nil {
+					addDef(x.Value, muxDefSite{rng: x})
+				}
+			case *ast.CallExpr:
+				if callee, ok := g.Callee(x).(*types.Func); ok {
+					if _, in := vf.fnOf[callee.Origin()]; in {
+						vf.sites[callee.Origin()] = append(vf.sites[callee.Origin()], reachCall{g, x})
+					}
+				}
+			case *ast.Ident:
+				objOf(x)
+			}
+			return true
+		})
+	}
+	return vf
+}
+
+func (vf *muxFlow) obj(id *ast.Ident) types.Object {
+	if o := vf.info.Uses[id]; o != nil {
+		return o
+	}
+	return vf.info.Defs[id]
+}
+
+// singleDef returns the only definition of a local variable when it is a plain expression.
+func (vf *muxFlow) singleDef(o types.Object) ast.Expr {
+	if ds := vf.defs[o]; len(ds) == 1 && ds[0].expr != nil {
+		if _, isParam := vf.param[o]; !isParam {
+			return ds[0].expr
+		}
+	}
+	return nil
+}
+
+// through resolves an identifier through single-definition locals to the defining expression.
+func (vf *muxFlow) through(e ast.Expr) ast.Expr {
+	for i := 0; i < 6; i++ {
+		id, ok := ast.Unparen(e).(*ast.Ident)
+		if !ok {
+			break
+		}
+		d := vf.singleDef(vf.obj(id))
+		if d == nil {
+			break
+		}
+		e = d
+	}
+	return ast.Unparen(e)
+}
+
+// muxFlatVal is one possible origin of a value: an access path root.f1.f2 (root = variable), or a
+// terminal expression.
+type muxFlatVal struct {
+	root   types.Object
+	fields []*types.Var
+	expr   ast.Expr
+	zero   bool // the zero value of a declared variable (expr = the variable)
+}
+
+func (v muxFlatVal) last() *types.Var {
+	if v.root == nil || len(v.fields) == 0 {
+		return nil
+	}
+	return v.fields[len(v.fields)-1]
+}
+
+func (v muxFlatVal) isPath(root func(types.Object) bool, fields ...*types.Var) bool {
+	if v.root == nil || !root(v.root) || len(v.fields) != len(fields) {
+		return false
+	}
+	for i := range fields {
+		if v.fields[i] != fields[i] {
+			return false
+		}
+	}
+	return true
+}
+
+func muxRefType(t types.Type) bool {
+	if t == nil {
+		return false
+	}
+	switch t.Underlying().(type) {
+	case *types.Pointer, *types.Interface, *types.Map, *types.Slice, *types.Chan, *types.Signature:
+		return true
+	}
+	return false
+}
+
+func (vf *muxFlow) flat(e ast.Expr) []muxFlatVal { return vf.flatRec(e, map[types.Object]bool{}, 0) }
+
+func (vf *muxFlow) flatRec(e ast.Expr, seen map[types.Object]bool, depth int) []muxFlatVal {
+	e = ast.Unparen(e)
+	if e == nil || depth > 10 {
+		return []muxFlatVal{{expr: e}}
+	}
+	switch x := e.(type) {
+	case *ast.Ident:
+		o := vf.obj(x)
+		v, isVar := o.(*types.Var)
+		if !isVar {
+			return []muxFlatVal{{expr: e}}
+		}
+		if vf.stop[o] || seen[o] {
+			return []muxFlatVal{{root: o}}
+		}
+		if v.Pkg() != nil && v.Parent() == v.Pkg().Scope() {
+			return []muxFlatVal{{root: o}}
+		}
+		seen[o] = true
+		defer delete(seen, o)
+		var out []muxFlatVal
+		if pr, ok := vf.param[o]; ok {
+			sites := vf.sites[pr.fn]
+			if len(sites) == 0 {
+				return []muxFlatVal{{root: o}}
+			}
+			for _, s := range sites {
+				var arg ast.Expr
+				if pr.idx < 0 {
+					if sel, ok := ast.Unparen(s.Call.Fun).(*ast.SelectorExpr); ok {
+						arg = sel.X
+					}
+				} else if pr.idx < len(s.Call.Args) {
+					arg = s.Call.Args[pr.idx]
+				}
+				if arg == nil {
+					out = append(out, muxFlatVal{expr: e})
+					continue
+				}
+				out = append(out, vf.flatRec(arg, seen, depth+1)...)
+			}
+			// a parameter may also be reassigned inside the function
+		}
+		ds := vf.defs[o]
+		if len(ds) == 0 && len(out) == 0 {
+			return []muxFlatVal{{root: o}}
+		}
+		for _, d := range ds {
+			switch {
+			case d.expr != nil:
+				out = append(out, vf.flatRec(d.expr, seen, depth+1)...)
+			case d.call != nil:
+				out = append(out, vf.flatCall(d.call, d.idx, seen, depth+1)...)
+			case d.rng != nil:
+				out = append(out, muxFlatVal{root: o})
+			case d.zero:
+				out = append(out, muxFlatVal{expr: e, zero: true})
+			default:
+				out = append(out, muxFlatVal{expr: e})
+			}
+		}
+		return out
+	case *ast.SelectorExpr:
+		if s := vf.info.Selections[x]; s != nil {
+			fld, ok := s.Obj().(*types.Var)
+			if !ok || s.Kind() != types.FieldVal {
+				return []muxFlatVal{{expr: e}}
+			}
+			var out []muxFlatVal
+			for _, v := range vf.flatRec(x.X, seen, depth+1) {
+				if v.root == nil {
+					if v.expr != nil && (vf.info.Types[v.expr].IsNil() || (v.zero && muxRefType(vf.info.TypeOf(v.expr)))) {
+						continue // a nil base is never selected from
+					}
+					out = append(out, muxFlatVal{expr: e})
+					continue
+				}
+				nf := append(append([]*types.Var{}, v.fields...), fld)
+				out = append(out, muxFlatVal{root: v.root, fields: nf})
+			}
+			return out
+		}
+		// qualified identifier
+		if v, ok := vf.info.Uses[x.Sel].(*types.Var); ok && v.Pkg() != nil && v.Parent() == v.Pkg().Scope() {
+			return []muxFlatVal{{root: v}}
+		}
+	case *ast.StarExpr:
+		return vf.flatRec(x.X, seen, depth+1)
+	case *ast.CallExpr:
+		if tv, ok := vf.info.Types[x.Fun]; ok && tv.IsType() && len(x.Args) == 1 {
+			return vf.flatRec(x.Args[0], seen, depth+1)
+		}
+		return vf.flatCall(x, 0, seen, depth+1)
+	}
+	return []muxFlatVal{{expr: e}}
+}
+
+// flatCall: the origins of result idx of a call to a function of the set.
+func (vf *muxFlow) flatCall(call *ast.CallExpr, idx int, seen map[types.Object]bool, depth int) []muxFlatVal {
+	var callee *types.Func
+	if len(vf.fns) > 0 {
+		callee, _ = vf.fns[0].Callee(call).(*types.Func)
+	}
+	if callee == nil {
+		return []muxFlatVal{{expr: call}}
+	}
+	callee = callee.Origin()
+	if _, in := vf.fnOf[callee]; !in || depth > 10 {
+		return []muxFlatVal{{expr: call}}
+	}
+	var out []muxFlatVal
+	for _, ret := range vf.rets[callee] {
+		switch {
+		case len(ret.Results) == 0:
+			if ids := vf.results[callee]; idx < len(ids) {
+				out = append(out, vf.flatRec(ids[idx], seen, depth+1)...)
+			} else {
+				out = append(out, muxFlatVal{expr: call})
+			}
+		case len(ret.Results) == 1 && idx == 0:
+			out = append(out, vf.flatRec(ret.Results[0], seen, depth+1)...)
+		case len(ret.Results) == 1:
+			// return h(..) of a multi-value function
+			if inner, ok := ast.Unparen(ret.Results[0]).(*ast.CallExpr); ok {
+				out = append(out, vf.flatCall(inner, idx, seen, depth+1)...)
+			} else {
+				out = append(out, muxFlatVal{expr: call})
+			}
+		case idx < len(ret.Results):
+			out = append(out, vf.flatRec(ret.Results[idx], seen, depth+1)...)
+		default:
+			out = append(out, muxFlatVal{expr: call})
+		}
+	}
+	if len(out) == 0 {
+		return []muxFlatVal{{expr: call}}
+	}
+	return out
+}
+
+// allPaths reports whether every origin of e is the access path root.fields with an accepted root
+// (nil literals are ignored when skipNil); at least one origin must be such a path.
+func (vf *muxFlow) allPaths(e ast.Expr, skipNil bool, root func(types.Object) bool, fields ...*types.Var) bool {
+	n := 0
+	for _, v := range vf.flat(e) {
+		if v.root == nil && skipNil && v.expr != nil && (vf.info.Types[v.expr].IsNil() || (v.zero && muxRefType(vf.info.TypeOf(v.expr)))) {
+			continue
+		}
+		if !v.isPath(root, fields...) {
+			return false
+		}
+		n++
+	}
+	return n > 0
+}
+
+// endsIn reports whether every origin of e is an access path whose last field is fld.
+func (vf *muxFlow) endsIn(e ast.Expr, fld *types.Var) bool {
+	vs := vf.flat(e)
+	for _, v := range vs {
+		if v.last() != fld {
+			return false
+		}
+	}
+	return len(vs) > 0 && fld != nil
+}
+
+// localCallee resolves a call through a local function variable defined once: a method value
+// (`h := x.m; h(..)` → m, x) or a function literal.
+func (vf *muxFlow) localCallee(call *ast.CallExpr) (fo *types.Func, recv ast.Expr, lit *ast.FuncLit) {
+	id, ok := ast.Unparen(call.Fun).(*ast.Ident)
+	if !ok {
+		return nil, nil, nil
+	}
+	o, ok := vf.obj(id).(*types.Var)
+	if !ok {
+		return nil, nil, nil
+	}
+	d := vf.singleDef(o)
+	if d == nil {
+		return nil, nil, nil
+	}
+	switch x := ast.Unparen(d).(type) {
+	case *ast.FuncLit:
+		return nil, nil, x
+	case *ast.SelectorExpr:
+		if s := vf.info.Selections[x]; s != nil && s.Kind() == types.MethodVal {
+			fo, _ = s.Obj().(*types.Func)
+			return fo, x.X, nil
+		}
+		if f, ok := vf.info.Uses[x.Sel].(*types.Func); ok {
+			return f, nil, nil
+		}
+	case *ast.Ident:
+		if f, ok := vf.obj(x).(*types.Func); ok {
+			return f, nil, nil
+		}
+	}
+	return nil, nil, nil
+}
+
+// ---------------------------------------------------------------------------------------
+// Loops over a slice field: `for _, x := range X`, `for i := range X`, `for i := 0; i < len(X); i++`.
+
+type muxLoop struct {
+	fn      *flow.Func
+	stmt    ast.Stmt
+	over    ast.Expr
+	idx     types.Object
+	elems   map[types.Object]bool
+	ordered bool
+	name    string
+	overP   func(x ast.Expr) bool
+}
+
+// isElem reports whether e denotes the current element of the loop: an element variable, or
+// X[i] with the loop's index.
+func (l *muxLoop) isElem(vf *muxFlow, e ast.Expr) bool {
+	e = vf.through(e)
+	if id := muxIdentOf(e); id != nil {
+		return l.elems[vf.obj(id)]
+	}
+	if ie, ok := e.(*ast.IndexExpr); ok && l.idx != nil {
+		if id := muxIdentOf(ie.Index); id != nil && vf.obj(id) == l.idx && l.overP != nil && l.overP(ie.X) {
+			return true
+		}
+	}
+	return false
+}
+
+func (l *muxLoop) isBody(b *cfg.Block) bool {
+	return b.Stmt == l.stmt && (b.Kind == cfg.KindRangeBody || b.Kind == cfg.KindForBody)
+}
+func (l *muxLoop) isHead(b *cfg.Block) bool {
+	return b.Stmt == l.stmt && (b.Kind == cfg.KindRangeLoop || b.Kind == cfg.KindForLoop)
+}
+func (l *muxLoop) isDone(b *cfg.Block) bool {
+	return b.Stmt == l.stmt && (b.Kind == cfg.KindRangeDone || b.Kind == cfg.KindForDone)
+}
+func (l *muxLoop) body() *ast.BlockStmt {
+	switch s := l.stmt.(type) {
+	case *ast.RangeStmt:
+		return s.Body
+	case *ast.ForStmt:
+		return s.Body
+	}
+	return nil
+}
+
+// track maintains the dynamic loop events: ev:cur:<name> is true from the entry of an iteration
+// until the loop terminates normally (its head finds no further element); leaving the loop by
+// break / return keeps it true: "the current element is still the one the facts speak about".
+func (l *muxLoop) track(st *flow.State, b *cfg.Block) {
+	switch {
+	case l.isHead(b):
+		st.Set("ev:head:"+l.name, flow.True)
+	case l.isBody(b):
+		st.Set("ev:head:"+l.name, flow.Unknown)
+		st.Set("ev:cur:"+l.name, flow.True)
+	case l.isDone(b):
+		if st.Is("ev:head:"+l.name, flow.True) {
+			st.Set("ev:cur:"+l.name, flow.Unknown)
+		}
+		st.Set("ev:head:"+l.name, flow.Unknown)
+	}
+}
+
+func (l *muxLoop) current(st *flow.State) bool { return st.Is("ev:cur:"+l.name, flow.True) }
+
+// lenOf returns X when e is len(X) (possibly through a local).
+func (vf *muxFlow) lenOf(e ast.Expr) ast.Expr {
+	call, ok := vf.through(e).(*ast.CallExpr)
+	if !ok || len(call.Args) != 1 {
+		return nil
+	}
+	if b, ok := vf.info.Uses[muxIdentOf(call.Fun)].(*types.Builtin); ok && b.Name() == "len" {
+		return call.Args[0]
+	}
+	return nil
+}
+
+func muxIdentOf(e ast.Expr) *ast.Ident {
+	id, _ := ast.Unparen(e).(*ast.Ident)
+	return id
+}
+
+// loopsOver finds the loops of the function set that iterate over the slice field fld.
+func (vf *muxFlow) loopsOver(fld *types.Var, name string) []*muxLoop {
+	return vf.loops(name, func(x ast.Expr) bool { return vf.endsIn(x, fld) })
+}
+
+// loops finds the range / counting loops whose iterated slice satisfies over.
+func (vf *muxFlow) loops(name string, over func(x ast.Expr) bool) []*muxLoop {
+	var out []*muxLoop
+	for _, g := range vf.fns {
+		g := g
+		ast.Inspect(g.Body, func(n ast.Node) bool {
+			switch s := n.(type) {
+			case *ast.RangeStmt:
+				if !over(s.X) {
+					return true
+				}
+				l := &muxLoop{fn: g, stmt: s, over: s.X, elems: map[types.Object]bool{}, ordered: true, name: name, overP: over}
+				if id := muxIdentOf(s.Key); id != nil && id.Name != "_" {
+					l.idx = vf.obj(id)
+				}
+				if id := muxIdentOf(s.Value); id != nil && id.Name != "_" {
+					l.elems[vf.obj(id)] = true
+				}
+				out = append(out, l)
+			case *ast.ForStmt:
+				be, ok := ast.Unparen(s.Cond).(*ast.BinaryExpr)
+				if !ok {
+					return true
+				}
+				var ix, bound ast.Expr
+				switch be.Op {
+				case token.LSS:
+					ix, bound = be.X, be.Y
+				case token.GTR:
+					ix, bound = be.Y, be.X
+				default:
+					return true
+				}
+				x := vf.lenOf(bound)
+				id := muxIdentOf(ix)
+				if x == nil || id == nil || !over(x) {
+					return true
+				}
+				l := &muxLoop{fn: g, stmt: s, over: x, idx: vf.obj(id), elems: map[types.Object]bool{}, name: name, overP: over}
+				// ordered: i := 0 ... i++
+				if init, ok := s.Init.(*ast.AssignStmt); ok && len(init.Lhs) == 1 && len(init.Rhs) == 1 && muxIdentOf(init.Lhs[0]) != nil && vf.obj(muxIdentOf(init.Lhs[0])) == l.idx {
+					if tv, ok := vf.info.Types[init.Rhs[0]]; ok && tv.Value != nil && tv.Value.ExactString() == "0" {
+						if inc, ok := s.Post.(*ast.IncDecStmt); ok && inc.Tok == token.INC && muxIdentOf(inc.X) != nil && vf.obj(muxIdentOf(inc.X)) == l.idx {
+							l.ordered = true
+						}
+					}
+				}
+				out = append(out, l)
+			}
+			return true
+		})
+	}
+	for _, l := range out {
+		if l.idx == nil {
+			continue
+		}
+		// the index must not be touched in the body; element locals: v := X[i]
+		ast.Inspect(l.body(), func(n ast.Node) bool {
+			switch s := n.(type) {
+			case *ast.AssignStmt:
+				for i, lh := range s.Lhs {
+					if id := muxIdentOf(lh); id != nil && vf.obj(id) == l.idx {
+						l.ordered = false
+					}
+					if len(s.Lhs) == len(s.Rhs) {
+						if ie, ok := ast.Unparen(s.Rhs[i]).(*ast.IndexExpr); ok && muxIdentOf(ie.Index) != nil && vf.obj(muxIdentOf(ie.Index)) == l.idx && over(ie.X) {
+							if id := muxIdentOf(lh); id != nil && id.Name != "_" {
+								l.elems[vf.obj(id)] = true
+							}
+						}
+					}
+				}
+			case *ast.IncDecStmt:
+				if id := muxIdentOf(s.X); id != nil && vf.obj(id) == l.idx {
+					l.ordered = false
+				}
+			}
+			return true
+		})
+	}
+	for _, l := range out {
+		for o := range l.elems {
+			vf.stop[o] = true
+		}
+	}
+	return out
+}
+
+// ---------------------------------------------------------------------------------------
+
+// muxAllowSite is one evaluation of an IP filter: allowIP(filter, ip) or filter.Allow(ip).
+type muxAllowSite struct {
+	call   *ast.CallExpr
+	filter ast.Expr
+	direct bool // filter.Allow(ip): a nil filter is not covered by the call
+}
+
+// muxPutSite is one hand-over of a route to the cache.
+type muxPutSite struct {
+	call *ast.CallExpr
+	val  ast.Expr
+}
+
 // searchInfo is the shared path-sensitive analysis of the router's search function
 // (used by C01, C05 and C12).
 type searchInfo struct {
-	f     *flow.Func
-	cons  string
-	res   *flow.Result
-	outer *ast.RangeStmt // over mi.rules
-	inner *ast.RangeStmt // over host.paths
+	f    *flow.Func
+	cons string
+	res  *flow.Result
+	ro   *muxRoles
+	vf   *muxFlow
+	fns  []*flow.Func
+
+	outer *muxLoop // over instance.rules
+	inner *muxLoop // over rule.paths
 
 	hostMatch, pathMatch, methodMatch, headerMatch []*ast.CallExpr
-	allow                                          map[string][]*ast.CallExpr // level -> allowIP calls
-	puts                                           []*ast.CallExpr
-	get                                            *ast.CallExpr
-	getVar                                         types.Object // variable assigned from the cache lookup
+	allow                                          map[string][]muxAllowSite // level -> IP filter evaluations
+	puts                                           []muxPutSite
+	gets                                           []*ast.CallExpr
+	holders                                        map[types.Object]bool // variables assigned from the cache lookup
+	cached                                         map[types.Object]bool // variables that may hold the cached route
 	chainAllow                                     []*ast.CallExpr
-	lenHeaders                                     string // key of fact len(path.headers)==0
+	hdrAtoms                                       []muxHdrAtom // forms of "the path has no header conditions"
 
 	routeCodes map[types.Object]string // package-level route vars -> status constant value
+
+	zeroFlags []*types.Var // bool fields of a state struct built empty by the search (see findZeroFlags)
+}
+
+type muxHdrAtom struct {
+	key   string
+	empty flow.Val // value of the fact that means "no headers"
 }
 
 // Event keys set by the search analysis.
@@ -45,7 +1026,7 @@ const (
 
 func (s *searchInfo) key(call *ast.CallExpr) string { return s.f.CallKey(call) }
 
-// known reports the value of the first call in list whose outcome is known in st.
+// val reports the value of the first call in list whose outcome is known in st.
 func (s *searchInfo) val(st *flow.State, list []*ast.CallExpr) flow.Val {
 	for _, c := range list {
 		if v := st.Get(s.key(c)); v != flow.Unknown {
@@ -55,37 +1036,40 @@ func (s *searchInfo) val(st *flow.State, list []*ast.CallExpr) flow.Val {
 	return flow.Unknown
 }
 
-// selLevel classifies `X.ipFilter` by the named type of X.
-func selLevel(f *flow.Func, e ast.Expr) string {
-	sel, ok := ast.Unparen(e).(*ast.SelectorExpr)
-	if !ok {
-		return ""
+// allowed reports the outcome of the IP filter evaluation of a level known in st.
+func (s *searchInfo) allowed(st *flow.State, level string) flow.Val {
+	for _, a := range s.allow[level] {
+		if v := st.Get(s.key(a.call)); v != flow.Unknown {
+			return v
+		}
+		if a.direct && st.Is(s.f.NilKey(a.filter), flow.True) {
+			return flow.True
+		}
 	}
-	tv, ok := f.Info.Types[sel.X]
-	if !ok {
-		return ""
+	return flow.Unknown
+}
+
+// noHeaders reports whether the current path is known to have no header conditions.
+func (s *searchInfo) noHeaders(st *flow.State) bool {
+	for _, a := range s.hdrAtoms {
+		if st.Is(a.key, a.empty) {
+			return true
+		}
 	}
-	t := tv.Type
-	if p, ok := t.(*types.Pointer); ok {
-		t = p.Elem()
+	return false
+}
+
+func (s *searchInfo) nilFilterKnown(st *flow.State, level string) bool {
+	for _, a := range s.allow[level] {
+		if st.Is(s.f.NilKey(a.filter), flow.True) {
+			return true
+		}
 	}
-	n, ok := t.(*types.Named)
-	if !ok {
-		return ""
-	}
-	switch n.Obj().Name() {
-	case "muxInstance":
-		return "server"
-	case "muxRule":
-		return "rule"
-	case "MuxPath":
-		return "path"
-	}
-	return ""
+	return false
 }
 
 // routeVars collects package-level `&route{code: K}` variables of httpserver.
-func routeVars(c *core.Ctx) map[types.Object]string {
+func routeVars(c *core.Ctx, ro *muxRoles) map[types.Object]string {
 	out := map[types.Object]string{}
 	pkg := c.Prog.Pkg(hs)
 	if pkg == nil {
@@ -106,20 +1090,16 @@ func routeVars(c *core.Ctx) map[types.Object]string {
 					if i >= len(vs.Values) {
 						continue
 					}
-					ue, ok := vs.Values[i].(*ast.UnaryExpr)
-					if !ok {
+					cl := litOf(vs.Values[i])
+					if cl == nil {
 						continue
 					}
-					cl, ok := ue.X.(*ast.CompositeLit)
-					if !ok {
-						continue
-					}
-					if tv, ok := pkg.TypesInfo.Types[cl]; !ok || !strings.HasSuffix(tv.Type.String(), "httpserver.route") {
+					if tv, ok := pkg.TypesInfo.Types[cl]; !ok || !muxSameNamed(muxDerefNamed(tv.Type), ro.routeT) {
 						continue
 					}
 					for _, el := range cl.Elts {
 						if kv, ok := el.(*ast.KeyValueExpr); ok {
-							if k, ok := kv.Key.(*ast.Ident); ok && k.Name == "code" {
+							if k, ok := kv.Key.(*ast.Ident); ok && k.Name == ro.codeF.Name() {
 								if tv, ok := pkg.TypesInfo.Types[kv.Value]; ok && tv.Value != nil {
 									out[pkg.TypesInfo.Defs[n]] = tv.Value.ExactString()
 								}
@@ -133,157 +1113,394 @@ func routeVars(c *core.Ctx) map[types.Object]string {
 	return out
 }
 
-// analyzeSearch resolves the roles inside muxInstance.search and runs the engine.
+// muxSearchFn resolves the search function: the function returning a *route that is called on the
+// request path (from mux.ServeHTTP) by a function which does not itself return a *route.
+func muxSearchFn(c *core.Ctx, ro *muxRoles, rule string) *flow.Func {
+	returnsRoute := func(fo *types.Func) bool {
+		sig := fo.Type().(*types.Signature)
+		return sig.Results().Len() >= 1 && muxIsPtrTo(sig.Results().At(0).Type(), ro.routeT)
+	}
+	entry := fnOpt(c, hs, "mux", "ServeHTTP")
+	cands := map[*types.Func]*flow.Func{}
+	if entry != nil {
+		for _, g := range reach(entry, 4) {
+			gfo := muxFuncObj(g)
+			if gfo != nil && returnsRoute(gfo) {
+				continue
+			}
+			for _, call := range calls(g.Body, true) {
+				fo, ok := g.Callee(call).(*types.Func)
+				if !ok || fo.Pkg() != g.Pkg.Types || !returnsRoute(fo) {
+					continue
+				}
+				if fd := declOf(g.Pkg, fo); fd != nil {
+					cands[fo.Origin()] = flow.NewFunc(g.Pkg, fd)
+				}
+			}
+		}
+	}
+	if len(cands) == 1 {
+		for _, g := range cands {
+			c.Count("functions_analysed", 1)
+			return g
+		}
+	}
+	for fo, g := range cands {
+		if fo.Name() == "search" {
+			c.Count("functions_analysed", 1)
+			return g
+		}
+	}
+	if len(cands) == 0 {
+		if f := fnOpt(c, hs, ro.instT.Obj().Name(), "search"); f != nil {
+			return f
+		}
+	}
+	c.Errorf("%s: anchor: cannot resolve the router's search function (a function returning *%s called on the path from mux.ServeHTTP; %d candidates)", rule, ro.routeT.Obj().Name(), len(cands))
+	return nil
+}
+
+// muxOwnCalls reports whether the body of g itself (function literals included) contains a call
+// satisfying pred.
+func muxOwnCalls(g *flow.Func, pred func(call *ast.CallExpr) bool) bool {
+	for _, call := range calls(g.Body, true) {
+		if pred(call) {
+			return true
+		}
+	}
+	return false
+}
+
+// cacheMethodCall reports whether call invokes method name on the instance's cache field.
+func (ro *muxRoles) cacheMethodCall(info *types.Info, call *ast.CallExpr, name string) bool {
+	sel, ok := ast.Unparen(call.Fun).(*ast.SelectorExpr)
+	if !ok || sel.Sel.Name != name || ro.cacheF == nil {
+		return false
+	}
+	x, ok := ast.Unparen(sel.X).(*ast.SelectorExpr)
+	if !ok {
+		return false
+	}
+	s := info.Selections[x]
+	return s != nil && s.Obj() == ro.cacheF
+}
+
+// muxRequestMethodUsed reports whether the reach of g uses (calls, or takes as a method value) one
+// of the given methods of httpprot.Request.
+func muxRequestMethodUsed(g *flow.Func, names ...string) bool {
+	found := false
+	inspectReach(g, 2, func(h *flow.Func, n ast.Node) bool {
+		if sel, ok := n.(*ast.SelectorExpr); ok && !found {
+			if s := h.Info.Selections[sel]; s != nil {
+				if fo, ok := s.Obj().(*types.Func); ok {
+					full := strings.ReplaceAll(fo.FullName(), Mod, "")
+					for _, nm := range names {
+						if full == "(*pkg/protocols/httpprot.Request)."+nm {
+							found = true
+						}
+					}
+				}
+			}
+		}
+		return !found
+	})
+	return found
+}
+
+// analyzeSearch resolves the roles inside the router's search function and runs the engine with
+// the same-package helpers of the search interpreted in place.
 func analyzeSearch(c *core.Ctx, rule string) *searchInfo {
-	f := fn(c, hs, "muxInstance", "search")
+	ro := muxRolesOf(c, rule)
+	if ro == nil {
+		return nil
+	}
+	f := muxSearchFn(c, ro, rule)
 	if f == nil {
 		return nil
 	}
-	s := &searchInfo{f: f, cons: fname(hs, "muxInstance", "search"), allow: map[string][]*ast.CallExpr{}}
-	s.routeCodes = routeVars(c)
+	s := &searchInfo{f: f, ro: ro, cons: muxFuncConstruct(f), allow: map[string][]muxAllowSite{}, holders: map[types.Object]bool{}, cached: map[types.Object]bool{}}
+	s.routeCodes = routeVars(c, ro)
 	if len(s.routeCodes) < 4 {
 		c.Errorf("%s: anchor: expected the four package-level failure routes (404/403/405/400), found %d", rule, len(s.routeCodes))
 	}
-	rulesF := structField(c, hs, "muxInstance", "rules")
-	pathsF := structField(c, hs, "muxRule", "paths")
-	ast.Inspect(f.Body, func(n ast.Node) bool {
-		rs, ok := n.(*ast.RangeStmt)
-		if !ok {
-			return true
+	info := f.Info
+
+	// ---- roles of the same-package callees; the ones modelled by their outcome stay opaque
+	opaque := map[types.Object]bool{}
+	kind := map[types.Object]string{}
+	for _, g := range reach(f, 4)[1:] {
+		fo := muxFuncObj(g)
+		if fo == nil {
+			continue
 		}
-		if sel, ok := ast.Unparen(rs.X).(*ast.SelectorExpr); ok {
-			if sl := f.Info.Selections[sel]; sl != nil {
-				switch sl.Obj() {
-				case rulesF:
-					s.outer = rs
-				case pathsF:
-					s.inner = rs
-				}
+		sig := fo.Type().(*types.Signature)
+		boolRes := sig.Results().Len() == 1 && types.Identical(sig.Results().At(0).Type(), types.Typ[types.Bool])
+		reqParam := sig.Params().Len() == 1 && muxIsPtrTo(sig.Params().At(0).Type(), ro.requestT)
+		rn := muxRecvNamed(fo)
+		switch {
+		case boolRes && reqParam && muxSameNamed(rn, ro.ruleT):
+			kind[fo] = "host"
+		case boolRes && reqParam && muxSameNamed(rn, ro.pathT):
+			p, m, h := muxRequestMethodUsed(g, "Path"), muxRequestMethodUsed(g, "Method"), muxRequestMethodUsed(g, "HTTPHeader", "Header")
+			switch {
+			case h && !p && !m:
+				kind[fo] = "headers"
+			case m && !p && !h:
+				kind[fo] = "method"
+			case p && !m && !h:
+				kind[fo] = "path"
+			default:
+				c.Errorf("%s: anchor: cannot tell which request attribute the matcher %s tests", rule, fo.Name())
+				return nil
 			}
+		case boolRes && rn == nil && sig.Params().Len() == 2 && muxIsPtrTo(sig.Params().At(0).Type(), ro.filterT):
+			kind[fo] = "allow"
+		case muxOwnCalls(g, func(call *ast.CallExpr) bool { return ro.cacheMethodCall(info, call, "Get") }):
+			kind[fo] = "get"
+		case muxOwnCalls(g, func(call *ast.CallExpr) bool { return ro.cacheMethodCall(info, call, "Add") }):
+			kind[fo] = "put"
 		}
-		return true
-	})
-	if s.outer == nil || s.inner == nil || !contains(s.outer, s.inner) {
-		c.Errorf("%s: anchor: search does not contain a range loop over paths nested in a range loop over rules", rule)
+		if kind[fo] != "" {
+			opaque[fo] = true
+		}
+	}
+	s.fns = muxReach(f, 4, opaque)
+	s.vf = newMuxFlow(s.fns)
+	vf := s.vf
+
+	// ---- the two loops
+	outers, inners := vf.loopsOver(ro.rulesF, "outer"), vf.loopsOver(ro.pathsF, "inner")
+	if len(outers) != 1 || len(inners) != 1 {
+		c.Errorf("%s: anchor: the search does not consist of one loop over the rules and one loop over a rule's paths (found %d / %d, helpers of the search included)", rule, len(outers), len(inners))
 		return nil
 	}
-	P := "(*" + hs + "."
-	for _, call := range calls(f.Body, false) {
-		switch {
-		case calleeIs(f, call, P+"muxRule).match"):
-			s.hostMatch = append(s.hostMatch, call)
-		case calleeIs(f, call, P+"MuxPath).matchPath"):
-			s.pathMatch = append(s.pathMatch, call)
-		case calleeIs(f, call, P+"MuxPath).matchMethod"):
-			s.methodMatch = append(s.methodMatch, call)
-		case calleeIs(f, call, P+"MuxPath).matchHeaders"):
-			s.headerMatch = append(s.headerMatch, call)
-		case calleeIs(f, call, hs+".allowIP"):
-			if len(call.Args) == 2 {
-				if lv := selLevel(f, call.Args[0]); lv != "" {
-					s.allow[lv] = append(s.allow[lv], call)
-				}
+	s.outer, s.inner = outers[0], inners[0]
+	isOuterElem := func(o types.Object) bool { return s.outer.elems[o] }
+	if !vf.allPaths(s.inner.over, false, isOuterElem, ro.pathsF) {
+		// index form without an element variable: mi.rules[i].paths
+		ok := false
+		if sel, isSel := ast.Unparen(vf.through(s.inner.over)).(*ast.SelectorExpr); isSel {
+			if ie, isIx := ast.Unparen(sel.X).(*ast.IndexExpr); isIx && muxIdentOf(ie.Index) != nil && vf.obj(muxIdentOf(ie.Index)) == s.outer.idx && vf.endsIn(ie.X, ro.rulesF) {
+				ok = true
 			}
-		case calleeIs(f, call, P+"muxInstance).putRouteToCache"):
-			s.puts = append(s.puts, call)
-		case calleeIs(f, call, P+"muxInstance).getRouteFromCache"):
-			s.get = call
-		case calleeIs(f, call, "(*pkg/util/ipfilter.IPFilters).Allow"):
-			s.chainAllow = append(s.chainAllow, call)
+		}
+		if !ok {
+			c.Errorf("%s: anchor: the loop over paths does not iterate over the paths of the current rule of the loop over rules", rule)
+			return nil
 		}
 	}
-	if s.get != nil {
-		ast.Inspect(f.Body, func(n ast.Node) bool {
-			if as, ok := n.(*ast.AssignStmt); ok && len(as.Rhs) == 1 && as.Rhs[0] == s.get && len(as.Lhs) == 1 {
-				if id, ok := as.Lhs[0].(*ast.Ident); ok {
-					s.getVar = f.Info.Defs[id]
-					if s.getVar == nil {
-						s.getVar = f.Info.Uses[id]
+
+	// ---- call sites by role
+	for _, g := range s.fns {
+		for _, call := range calls(g.Body, true) {
+			fo, _ := g.Callee(call).(*types.Func)
+			if fo != nil {
+				fo = fo.Origin()
+			}
+			switch kind[fo] {
+			case "host":
+				s.hostMatch = append(s.hostMatch, call)
+			case "path":
+				s.pathMatch = append(s.pathMatch, call)
+			case "method":
+				s.methodMatch = append(s.methodMatch, call)
+			case "headers":
+				s.headerMatch = append(s.headerMatch, call)
+			case "allow":
+				if lv := s.levelOf(call.Args[0]); lv != "" {
+					s.allow[lv] = append(s.allow[lv], muxAllowSite{call: call, filter: call.Args[0]})
+				}
+			case "get":
+				s.gets = append(s.gets, call)
+			case "put":
+				for _, a := range call.Args {
+					if tv, ok := info.Types[a]; ok && muxIsPtrTo(tv.Type, ro.routeT) {
+						s.puts = append(s.puts, muxPutSite{call, a})
+					}
+				}
+			default:
+				switch {
+				case calleeIs(g, call, "(*pkg/util/ipfilter.IPFilters).Allow"):
+					s.chainAllow = append(s.chainAllow, call)
+				case calleeIs(g, call, "(*pkg/util/ipfilter.IPFilter).Allow"):
+					if sel, ok := ast.Unparen(call.Fun).(*ast.SelectorExpr); ok {
+						if lv := s.levelOf(sel.X); lv != "" {
+							s.allow[lv] = append(s.allow[lv], muxAllowSite{call: call, filter: sel.X, direct: true})
+						}
+					}
+				default:
+					// a local closure / method value that hands its argument to the cache
+					if p := s.closurePut(call, kind); p != nil {
+						s.puts = append(s.puts, *p)
+					}
+				}
+			}
+		}
+	}
+	// holders of the lookup's result, and everything that may alias them
+	for _, g := range s.fns {
+		ast.Inspect(g.Body, func(n ast.Node) bool {
+			if as, ok := n.(*ast.AssignStmt); ok && len(as.Rhs) == 1 && len(as.Lhs) >= 1 {
+				for _, get := range s.gets {
+					if ast.Unparen(as.Rhs[0]) == ast.Expr(get) {
+						if id := muxIdentOf(as.Lhs[0]); id != nil {
+							s.holders[vf.obj(id)] = true
+						}
 					}
 				}
 			}
 			return true
 		})
 	}
-	// len(path.headers) == 0 atom: find it syntactically to learn its key
-	headersF := structField(c, hs, "MuxPath", "headers")
-	ast.Inspect(f.Body, func(n ast.Node) bool {
-		be, ok := n.(*ast.BinaryExpr)
-		if !ok {
-			return true
+	for o := range s.holders {
+		s.cached[o] = true
+	}
+	for changed := true; changed; {
+		changed = false
+		for o := range vf.ident {
+			if s.cached[o] {
+				continue
+			}
+			if v, ok := o.(*types.Var); !ok || !muxIsPtrTo(v.Type(), ro.routeT) || v.IsField() {
+				continue
+			}
+			for _, fv := range vf.flat(vf.ident[o]) {
+				if fv.root != nil && len(fv.fields) == 0 && s.cached[fv.root] && fv.root != o {
+					s.cached[o] = true
+					changed = true
+				}
+			}
 		}
-		for _, side := range []ast.Expr{be.X, be.Y} {
-			if call, ok := ast.Unparen(side).(*ast.CallExpr); ok && len(call.Args) == 1 {
-				if b, ok := f.Callee(call).(*types.Builtin); ok && b.Name() == "len" {
-					if sel, ok := ast.Unparen(call.Args[0]).(*ast.SelectorExpr); ok {
-						if sl := f.Info.Selections[sel]; sl != nil && sl.Obj() == headersF {
-							s.lenHeaders = "eq:" + f.Render(call) + "==0"
+	}
+
+	// "the path has no header conditions": len(p.headers) == 0 and its spellings
+	for _, g := range s.fns {
+		ast.Inspect(g.Body, func(n ast.Node) bool {
+			be, ok := n.(*ast.BinaryExpr)
+			if !ok {
+				return true
+			}
+			for i, side := range []ast.Expr{be.X, be.Y} {
+				other := be.Y
+				if i == 1 {
+					other = be.X
+				}
+				if tv, ok := info.Types[other]; !ok || tv.Value == nil || tv.Value.ExactString() != "0" {
+					continue
+				}
+				if x := vf.lenOf(side); x != nil && vf.endsIn(x, ro.headersF) {
+					r := f.Render(ast.Unparen(side))
+					s.hdrAtoms = append(s.hdrAtoms, muxHdrAtom{"eq:" + r + "==0", flow.True}, muxHdrAtom{"lt:0<" + r, flow.False})
+				}
+			}
+			return true
+		})
+	}
+
+	s.zeroFlags = s.findZeroFlags(c)
+	matcherCall := map[*ast.CallExpr]bool{}
+	for _, list := range [][]*ast.CallExpr{s.hostMatch, s.pathMatch, s.methodMatch, s.headerMatch} {
+		for _, call := range list {
+			matcherCall[call] = true
+		}
+	}
+	res := muxAnalyzeInl(c, f, flow.Config{
+		NoHavoc: true,
+		OnCall: func(st *flow.State, call *ast.CallExpr, callee types.Object, deferred bool) {
+			// a matcher reads the fields of its receiver first thing: where its call has returned,
+			// the rule / path it was called on is not nil
+			if matcherCall[call] {
+				if sel, ok := ast.Unparen(call.Fun).(*ast.SelectorExpr); ok && muxIdentOf(sel.X) != nil {
+					st.Set(f.NilKey(sel.X), flow.False)
+				}
+			}
+		},
+		OnNode: func(st *flow.State, n ast.Node) {
+			// a route variable that currently holds a fresh success route for the current path
+			if as, ok := n.(*ast.AssignStmt); ok && len(as.Lhs) == len(as.Rhs) {
+				for i, l := range as.Lhs {
+					if id := muxIdentOf(l); id != nil && id.Name != "_" {
+						if v, ok := s.vf.obj(id).(*types.Var); ok && muxIsPtrTo(v.Type(), ro.routeT) {
+							if s.isPathLit(as.Rhs[i]) {
+								st.Set("ev:pathlit:"+f.Render(id), flow.True)
+							} else {
+								st.Set("ev:pathlit:"+f.Render(id), flow.Unknown)
+							}
 						}
 					}
 				}
 			}
-		}
-		return true
-	})
-
-	var hostVar, pathVar types.Object
-	if id, ok := s.outer.Value.(*ast.Ident); ok {
-		hostVar = f.Info.Defs[id]
-	}
-	if id, ok := s.inner.Value.(*ast.Ident); ok {
-		pathVar = f.Info.Defs[id]
-	}
-	nilOfFilter := func(st *flow.State, level string) bool {
-		// is the IP filter of the current rule/path known to be nil?
-		for _, call := range s.allow[level] {
-			if st.Is(f.NilKey(call.Args[0]), flow.True) {
-				return true
+			if as, ok := n.(*ast.AssignStmt); ok && len(s.zeroFlags) > 0 {
+				for _, l := range as.Lhs {
+					if sel, ok := ast.Unparen(l).(*ast.SelectorExpr); ok {
+						if sl := info.Selections[sel]; sl != nil {
+							for _, zf := range s.zeroFlags {
+								if sl.Obj() != zf {
+									continue
+								}
+								// the flag's value is tracked per field (there is one state struct per search)
+								st.Set("ev:flag:"+zf.Name(), flow.Unknown)
+								st.Set("ev:flagany:"+zf.Name(), flow.True)
+								if len(as.Lhs) == len(as.Rhs) {
+									for i := range as.Lhs {
+										if as.Lhs[i] == l {
+											if tv, ok := info.Types[as.Rhs[i]]; ok && tv.Value != nil {
+												st.Set("ev:flagany:"+zf.Name(), flow.Unknown)
+												if tv.Value.ExactString() == "true" {
+													st.Set("ev:flag:"+zf.Name(), flow.True)
+												} else {
+													st.Set("ev:flag:"+zf.Name(), flow.False)
+												}
+											}
+										}
+									}
+								}
+							}
+						}
+					}
+				}
 			}
-		}
-		return false
-	}
-	_ = hostVar
-	_ = pathVar
-	res := analyze(c, f, flow.Config{
-		NoHavoc: true,
+		},
 		OnBlock: func(st *flow.State, b *cfg.Block) {
-			if b.Kind != cfg.KindRangeBody {
-				return
-			}
-			if b.Stmt == s.outer {
-				if st.Is(evIPRule, flow.True) && !nilOfFilter(st, "rule") {
+			if s.outer.isBody(b) {
+				if st.Is(evIPRule, flow.True) && !s.nilFilterKnown(st, "rule") {
 					st.Set(evIPEarly, flow.True)
 				}
 				st.Set(evIPRule, flow.Unknown)
-				if st.Is(evIPPath, flow.True) && !nilOfFilter(st, "path") {
+				if st.Is(evIPPath, flow.True) && !s.nilFilterKnown(st, "path") {
 					st.Set(evIPEarly, flow.True)
 				}
 				st.Set(evIPPath, flow.Unknown)
 			}
-			if b.Stmt == s.inner {
-				if st.Is(evIPPath, flow.True) && !nilOfFilter(st, "path") {
+			if s.inner.isBody(b) {
+				if st.Is(evIPPath, flow.True) && !s.nilFilterKnown(st, "path") {
 					st.Set(evIPEarly, flow.True)
 				}
 				st.Set(evIPPath, flow.Unknown)
 			}
+			s.outer.track(st, b)
+			s.inner.track(st, b)
 		},
 		AfterAssume: func(st *flow.State, cond ast.Expr, outcome bool) {
+			if s.guessedFlag(st) {
+				st.Set("ev:infeasible", flow.True)
+			}
 			if s.val(st, s.headerMatch) != flow.Unknown {
 				st.Set(evHdep, flow.True)
 			}
-			if s.val(st, s.allow["server"]) != flow.Unknown {
+			if s.allowed(st, "server") != flow.Unknown {
 				st.Set(evIPSrv, flow.True)
 			}
-			if s.val(st, s.allow["rule"]) != flow.Unknown {
+			if s.allowed(st, "rule") != flow.Unknown {
 				st.Set(evIPRule, flow.True)
 			}
-			if s.val(st, s.allow["path"]) != flow.Unknown {
+			if s.allowed(st, "path") != flow.Unknown {
 				st.Set(evIPPath, flow.True)
 			}
-			if s.getVar != nil && st.Get(evHit) == flow.Unknown {
+			if len(s.holders) > 0 && st.Get(evHit) == flow.Unknown {
 				// first nil test of the variable assigned from the cache lookup
 				ast.Inspect(cond, func(n ast.Node) bool {
-					if id, ok := n.(*ast.Ident); ok && f.Info.Uses[id] == s.getVar {
+					if id, ok := n.(*ast.Ident); ok && s.holders[info.Uses[id]] {
 						switch st.Get(f.NilKey(id)) {
 						case flow.True:
 							st.Set(evHit, flow.False)
@@ -294,102 +1511,351 @@ func analyzeSearch(c *core.Ctx, rule string) *searchInfo {
 					return true
 				})
 			}
+			// sticky mismatch events (C01): independent of how the implementation stores its flags
+			pm, mm, hm := s.val(st, s.pathMatch), s.val(st, s.methodMatch), s.val(st, s.headerMatch)
+			if s.val(st, s.hostMatch) == flow.False {
+				return
+			}
+			if pm == flow.True && mm == flow.False {
+				st.Set(evMethMis, flow.True)
+			}
+			if pm == flow.True && mm == flow.True && hm == flow.False && !s.noHeaders(st) {
+				st.Set(evHdrMis, flow.True)
+			}
 		},
-	})
+	}, muxObjList(opaque)...)
 	if res == nil {
 		return nil
+	}
+	if len(s.zeroFlags) > 0 {
+		// drop the states in which the engine guessed a never-assigned flag of the freshly built
+		// state struct to be true (it does not know the zero values of a composite literal's fields)
+		keep := func(sts []*flow.State) []*flow.State {
+			var out []*flow.State
+			for _, st := range sts {
+				if !st.Is("ev:infeasible", flow.True) && !s.guessedFlag(st) {
+					out = append(out, st)
+				}
+			}
+			return out
+		}
+		for n, sts := range res.At {
+			res.At[n] = keep(sts)
+		}
+		var exits []*flow.Exit
+		for _, ex := range res.Exits {
+			if !ex.State.Is("ev:infeasible", flow.True) && !s.guessedFlag(ex.State) {
+				exits = append(exits, ex)
+			}
+		}
+		res.Exits = exits
 	}
 	s.res = res
 	return s
 }
 
-// putValueKind classifies the route handed to a cache put:
-// "path" (a fresh success route for the current path), a status code for a
-// package-level failure route, or "" if unknown.
-func (s *searchInfo) putValueKind(put *ast.CallExpr) string {
-	if len(put.Args) != 2 {
-		return ""
-	}
-	f := s.f
-	arg := ast.Unparen(put.Args[1])
-	isPathLit := func(e ast.Expr) bool {
-		ue, ok := ast.Unparen(e).(*ast.UnaryExpr)
-		if !ok {
+// findZeroFlags finds the bool fields F of a same-package struct type T that the search uses as
+// its own scratch state: every value of type T whose F the search reads or writes is built by the
+// one composite literal of T in the search (`st := &searchState{}`, outside any loop, F not set),
+// F is only written by plain assignments and its address is never taken. Such a flag is false
+// until the search assigns it. The engine does not know the zero values of a literal's fields and
+// keys a bool field test as `expr:x.F` but an assignment as `v:x.F` (reported), so the analysis
+// tracks these flags itself (ev:flag:F) and drops the states whose engine facts contradict it.
+func (s *searchInfo) findZeroFlags(c *core.Ctx) []*types.Var {
+	info := s.f.Info
+	cands := map[*types.Var]bool{}
+	bad := map[*types.Var]bool{}
+	lits := map[*ast.CompositeLit]bool{}
+	litOK := func(e ast.Expr, fld *types.Var) bool {
+		cl := litOf(e)
+		if cl == nil {
 			return false
 		}
-		cl, ok := ue.X.(*ast.CompositeLit)
-		if !ok {
-			return false
-		}
-		okPath, okCode := false, true
 		for _, el := range cl.Elts {
 			kv, ok := el.(*ast.KeyValueExpr)
 			if !ok {
+				return false // positional literal
+			}
+			if k, ok := kv.Key.(*ast.Ident); ok && k.Name == fld.Name() {
 				return false
 			}
-			k, _ := kv.Key.(*ast.Ident)
-			if k == nil {
-				return false
+		}
+		lits[cl] = true
+		return true
+	}
+	for _, g := range s.fns {
+		ast.Inspect(g.Body, func(n ast.Node) bool {
+			sel, ok := n.(*ast.SelectorExpr)
+			if !ok {
+				return true
 			}
-			switch k.Name {
-			case "path":
-				if id, ok := ast.Unparen(kv.Value).(*ast.Ident); ok && s.inner.Value != nil {
-					if vid, ok := s.inner.Value.(*ast.Ident); ok && f.Info.Uses[id] == f.Info.Defs[vid] {
-						okPath = true
-					}
+			sl := info.Selections[sel]
+			if sl == nil || sl.Kind() != types.FieldVal {
+				return true
+			}
+			fld, ok := sl.Obj().(*types.Var)
+			if !ok || fld.Pkg() != s.f.Pkg.Types || !types.Identical(fld.Type(), types.Typ[types.Bool]) {
+				return true
+			}
+			cands[fld] = true
+			vs := s.vf.flat(sel.X)
+			if len(vs) == 0 {
+				bad[fld] = true
+			}
+			for _, v := range vs {
+				if v.root != nil || v.expr == nil || !litOK(v.expr, fld) {
+					bad[fld] = true
 				}
-			case "code":
-				if tv, ok := f.Info.Types[kv.Value]; !ok || tv.Value == nil || tv.Value.ExactString() != "0" {
-					okCode = false
-				}
+			}
+			return true
+		})
+	}
+	if len(cands) == 0 {
+		return nil
+	}
+	// one literal, executed once per search
+	if len(lits) != 1 {
+		return nil
+	}
+	for cl := range lits {
+		for _, g := range s.fns {
+			if contains(g.Body, cl) && len(enclosingLoops(g.Body, cl)) > 0 {
+				return nil
 			}
 		}
-		return okPath && okCode
 	}
-	if isPathLit(arg) {
-		return "path"
-	}
-	if id, ok := arg.(*ast.Ident); ok {
-		obj := f.Info.Uses[id]
-		if code, ok := s.routeCodes[obj]; ok {
-			return code
-		}
-		// local variable: find its (unique) assignment in the function
-		kind := ""
-		n := 0
-		ast.Inspect(f.Body, func(x ast.Node) bool {
-			if as, ok := x.(*ast.AssignStmt); ok && len(as.Lhs) == 1 && len(as.Rhs) == 1 {
-				if lid, ok := as.Lhs[0].(*ast.Ident); ok && (f.Info.Uses[lid] == obj || f.Info.Defs[lid] == obj) {
-					if as.Rhs[0] == s.get {
-						return true
-					}
-					n++
-					if isPathLit(as.Rhs[0]) {
-						kind = "path"
+	// address taken anywhere in the package?
+	for _, file := range s.f.Pkg.Syntax {
+		ast.Inspect(file, func(n ast.Node) bool {
+			if ue, ok := n.(*ast.UnaryExpr); ok && ue.Op == token.AND {
+				if sel, ok := ast.Unparen(ue.X).(*ast.SelectorExpr); ok {
+					if sl := info.Selections[sel]; sl != nil {
+						if fld, ok := sl.Obj().(*types.Var); ok && cands[fld] {
+							bad[fld] = true
+						}
 					}
 				}
 			}
 			return true
 		})
-		if n == 1 {
-			return kind
+	}
+	var out []*types.Var
+	for fld := range cands {
+		if !bad[fld] {
+			out = append(out, fld)
 		}
 	}
-	return ""
+	return out
 }
 
-// putKindIn classifies the value handed to a put in a given state: when the argument is
-// a local variable known (in that state) to equal one of the package-level failure routes,
-// the state decides; otherwise the static classification is used.
-func (s *searchInfo) putKindIn(st *flow.State, put *ast.CallExpr) string {
-	if k := s.putValueKind(put); k != "" {
-		return k
+// guessedFlag: an engine fact about a zero flag contradicts the flag's tracked value.
+func (s *searchInfo) guessedFlag(st *flow.State) bool {
+	if len(s.zeroFlags) == 0 {
+		return false
 	}
-	if len(put.Args) != 2 {
+	for _, fact := range st.Facts() {
+		if !strings.HasPrefix(fact, "v:") && !strings.HasPrefix(fact, "expr:") {
+			continue
+		}
+		for _, zf := range s.zeroFlags {
+			if !strings.HasSuffix(fact[:len(fact)-2], "."+zf.Name()) || st.Is("ev:flagany:"+zf.Name(), flow.True) {
+				continue
+			}
+			want := st.Is("ev:flag:"+zf.Name(), flow.True) // never assigned = false
+			if (fact[len(fact)-1] == 'T') != want {
+				return true
+			}
+		}
+	}
+	return false
+}
+
+func muxObjList(m map[types.Object]bool) []types.Object {
+	var out []types.Object
+	for o := range m {
+		out = append(out, o)
+	}
+	return out
+}
+
+// levelOf classifies an IP filter expression by the level whose filter field it selects.
+func (s *searchInfo) levelOf(e ast.Expr) string {
+	vs := s.vf.flat(e)
+	lv := ""
+	for _, v := range vs {
+		var l string
+		switch v.last() {
+		case s.ro.instFilterF:
+			l = "server"
+		case s.ro.ruleFilterF:
+			l = "rule"
+		case s.ro.pathFilterF:
+			l = "path"
+		default:
+			return ""
+		}
+		if lv != "" && lv != l {
+			return ""
+		}
+		lv = l
+	}
+	return lv
+}
+
+// closurePut recognises `put := func(r *route) { mi.putRouteToCache(req, r) }; put(x)` and
+// `put := mi.putRouteToCache; put(req, x)`.
+func (s *searchInfo) closurePut(call *ast.CallExpr, kind map[types.Object]string) *muxPutSite {
+	fo, _, lit := s.vf.localCallee(call)
+	info := s.f.Info
+	if fo != nil && kind[fo.Origin()] == "put" {
+		for _, a := range call.Args {
+			if tv, ok := info.Types[a]; ok && muxIsPtrTo(tv.Type, s.ro.routeT) {
+				return &muxPutSite{call, a}
+			}
+		}
+	}
+	if lit == nil {
+		return nil
+	}
+	// the literal's only effect must be the put of one of its parameters
+	var params []types.Object
+	for _, fld := range lit.Type.Params.List {
+		for _, nm := range fld.Names {
+			params = append(params, info.Defs[nm])
+		}
+	}
+	for _, inner := range calls(lit.Body, false) {
+		ifo, _ := s.f.Callee(inner).(*types.Func)
+		if ifo == nil || kind[ifo.Origin()] != "put" {
+			continue
+		}
+		for _, a := range inner.Args {
+			if id := muxIdentOf(a); id != nil {
+				for i, p := range params {
+					if info.Uses[id] == p && i < len(call.Args) && muxIsPtrTo(p.Type(), s.ro.routeT) {
+						return &muxPutSite{call, call.Args[i]}
+					}
+				}
+			}
+		}
+	}
+	return nil
+}
+
+// isCurPath reports whether e denotes the current element of the loop over paths.
+func (s *searchInfo) isCurPath(e ast.Expr) bool {
+	return s.vf.allPaths(e, true, func(o types.Object) bool { return s.inner.elems[o] })
+}
+
+// isGet reports whether e is one of the cache lookup calls.
+func (s *searchInfo) isGet(e ast.Expr) bool {
+	for _, g := range s.gets {
+		if ast.Unparen(e) == ast.Expr(g) {
+			return true
+		}
+	}
+	return false
+}
+
+// routeExprKind classifies an expression of type *route: "path" (a fresh success route for the
+// current path), the status code of a package-level failure route, "cached" (the route found in
+// the cache), or "" if unknown / ambiguous. A variable that holds the lookup result and is reused
+// later is read according to hit: on a hit path it is the cached route, on a miss path the lookup
+// result is nil and the other origins count.
+func (s *searchInfo) routeExprKind(e ast.Expr, hit bool) string {
+	vs := s.vf.flat(e)
+	isCached := func(v muxFlatVal) bool {
+		return (v.root != nil && len(v.fields) == 0 && s.cached[v.root]) || (v.root == nil && v.expr != nil && s.isGet(v.expr))
+	}
+	anyCached := false
+	for _, v := range vs {
+		if isCached(v) {
+			anyCached = true
+		}
+	}
+	if hit && anyCached {
+		return "cached"
+	}
+	kind := ""
+	set := func(k string) {
+		if kind != "" && kind != k {
+			kind = "?"
+			return
+		}
+		kind = k
+	}
+	for _, v := range vs {
+		switch {
+		case isCached(v):
+			continue // nil on a miss path
+		case v.root != nil && len(v.fields) == 0 && s.routeCodes[v.root] != "":
+			set(s.routeCodes[v.root])
+		case v.root == nil && v.expr != nil:
+			if s.f.Info.Types[v.expr].IsNil() || v.zero {
+				continue
+			}
+			if s.isPathLit(v.expr) {
+				set("path")
+			} else {
+				set("?")
+			}
+		default:
+			set("?")
+		}
+	}
+	if kind == "?" {
 		return ""
 	}
-	id, ok := ast.Unparen(put.Args[1]).(*ast.Ident)
-	if !ok {
+	return kind
+}
+
+// isPathLit: &route{code: 0, path: <current path>} (code may be omitted).
+func (s *searchInfo) isPathLit(e ast.Expr) bool {
+	cl := litOf(e)
+	if cl == nil {
+		return false
+	}
+	if tv, ok := s.f.Info.Types[cl]; !ok || !muxSameNamed(muxDerefNamed(tv.Type), s.ro.routeT) {
+		return false
+	}
+	okPath, okCode := false, true
+	for _, el := range cl.Elts {
+		kv, ok := el.(*ast.KeyValueExpr)
+		if !ok {
+			return false
+		}
+		k, _ := kv.Key.(*ast.Ident)
+		if k == nil {
+			return false
+		}
+		switch k.Name {
+		case s.ro.rpathF.Name():
+			okPath = s.isCurPath(kv.Value)
+		case s.ro.codeF.Name():
+			if tv, ok := s.f.Info.Types[kv.Value]; !ok || tv.Value == nil || tv.Value.ExactString() != "0" {
+				okCode = false
+			}
+		}
+	}
+	return okPath && okCode
+}
+
+// putKindIn classifies the value handed to a put in a given state: "path", a status code, or "".
+func (s *searchInfo) putKindIn(st *flow.State, put muxPutSite) string {
+	if k := s.routeExprKind(put.val, false); k != "" {
+		return k
+	}
+	if id := muxIdentOf(put.val); id != nil && st.Is("ev:pathlit:"+s.f.Render(id), flow.True) {
+		return "path"
+	}
+	// a variable known (in this state) to equal one of the package-level failure routes
+	return s.codeByFact(st, put.val)
+}
+
+// codeByFact: the expression is a variable known in st to equal a package-level failure route.
+func (s *searchInfo) codeByFact(st *flow.State, e ast.Expr) string {
+	id := muxIdentOf(e)
+	if id == nil {
 		return ""
 	}
 	for g, code := range s.routeCodes {
@@ -398,4 +1864,371 @@ func (s *searchInfo) putKindIn(st *flow.State, put *ast.CallExpr) string {
 		}
 	}
 	return ""
+}
+
+// muxRetExpr returns the expression whose value an exit returns (through inlined tail calls and
+// named results), nil if there is none.
+func muxRetExpr(f *flow.Func, vf *muxFlow, ex *flow.Exit) ast.Expr {
+	ret := ex.Ret()
+	if ret == nil {
+		return nil
+	}
+	if len(ret.Results) == 1 {
+		return ast.Unparen(ret.Results[0])
+	}
+	if len(ret.Results) == 0 && vf != nil {
+		// bare return: the named result of the function the statement belongs to
+		for fo, rs := range vf.rets {
+			for _, r := range rs {
+				if r == ret {
+					if ids := vf.results[fo]; len(ids) == 1 {
+						return ids[0]
+					}
+				}
+			}
+		}
+	}
+	return nil
+}
+
+// exitKind classifies what an exit of the search returns: "path" (success route of the current
+// path), a status code, "cached", or "".
+func (s *searchInfo) exitKind(ex *flow.Exit) string {
+	e := muxRetExpr(s.f, s.vf, ex)
+	if e == nil {
+		return ""
+	}
+	if code := s.codeByFact(ex.State, e); code != "" {
+		return code
+	}
+	if k := s.routeExprKind(e, ex.State.Is(evHit, flow.True)); k != "" {
+		return k
+	}
+	if id := muxIdentOf(e); id != nil && ex.State.Is("ev:pathlit:"+s.f.Render(id), flow.True) {
+		return "path"
+	}
+	return ""
+}
+
+// cachedCodeZero reports what is known in st about "the cached route is a success route"
+// (code == 0), looking at every variable that may hold the cached route.
+func (s *searchInfo) cachedCodeZero(st *flow.State) flow.Val {
+	for o := range s.cached {
+		id := s.vf.ident[o]
+		if id == nil {
+			continue
+		}
+		if v := st.Get("eq:" + s.f.Render(id) + "." + s.ro.codeF.Name() + "==0"); v != flow.Unknown {
+			return v
+		}
+	}
+	return flow.Unknown
+}
+
+// chainPassed reports whether st has re-validated the cached path's filter chain: chain.Allow
+// returned true, or the chain is nil.
+func (s *searchInfo) chainPassed(st *flow.State) (passed, denied bool) {
+	for _, ca := range s.chainAllow {
+		if !s.chainOfCached(ca) {
+			continue
+		}
+		switch st.Get(s.f.CallKey(ca)) {
+		case flow.True:
+			passed = true
+		case flow.False:
+			denied = true
+		}
+		if sel, ok := ast.Unparen(ca.Fun).(*ast.SelectorExpr); ok {
+			if st.Is(s.f.NilKey(sel.X), flow.True) {
+				passed = true
+			}
+			// the chain read into a local / tested through another spelling
+			for _, fact := range st.Facts() {
+				if strings.HasPrefix(fact, "nil:") && strings.HasSuffix(fact, "."+s.ro.pathChainF.Name()+"=T") && s.nilFactOfCached(fact) {
+					passed = true
+				}
+			}
+		}
+	}
+	return
+}
+
+// chainOfCached: the receiver of chain.Allow is the filter chain of the cached route's path
+// (unresolvable receivers are given the benefit of the doubt).
+func (s *searchInfo) chainOfCached(ca *ast.CallExpr) bool {
+	sel, ok := ast.Unparen(ca.Fun).(*ast.SelectorExpr)
+	if !ok {
+		return true
+	}
+	resolvable := false
+	for _, v := range s.vf.flat(sel.X) {
+		if v.root == nil {
+			continue
+		}
+		resolvable = true
+		if v.isPath(func(o types.Object) bool { return s.cached[o] }, s.ro.rpathF, s.ro.pathChainF) {
+			return true
+		}
+	}
+	return !resolvable
+}
+
+func (s *searchInfo) nilFactOfCached(fact string) bool {
+	for o := range s.cached {
+		if id := s.vf.ident[o]; id != nil && strings.HasPrefix(fact, "nil:"+s.f.Render(id)+"."+s.ro.rpathF.Name()+".") {
+			return true
+		}
+	}
+	return false
+}
+
+// ---------------------------------------------------------------------------------------
+// muxAnalyzeInl runs the engine with the same-package callees interpreted in place (except the
+// opaque ones).
+//
+// It also works around a defect of flow/inline.go (reported; internal/flow is shared): when a
+// parameter is bound as an alias of the caller's path, the facts copied back at the callee's exit
+// get the *parameter object* merged into the dependencies of the caller-named fact (transfer()
+// merges d.vars into deps[nk]). deps is global to the engine, so the next state that enters the
+// same callee has these caller-named facts killed by the `KillVar(s, po)` that precedes the
+// binding — before transfer() could copy them to the parameter's name. Effect: from the second
+// entering state on, the callee is interpreted without what the caller knew about the arguments
+// (e.g. `return h(flagA, flagB)` explores flagA = true although the caller knows it is false).
+// Work-around: OnCall (which the engine fires for the inlined call before the binding) saves the
+// facts that mention an alias-bound argument as event facts (never killed); OnBlock at the
+// callee's entry block restores them under both names if they are gone.
+func muxAnalyzeInl(c *core.Ctx, f *flow.Func, conf flow.Config, opaque ...types.Object) *flow.Result {
+	inl := inlineSamePkg(f, opaque...)
+	conf.Inline = inl
+	onCall, onBlock := conf.OnCall, conf.OnBlock
+	const pre = "ev:inl@"
+	clear := func(st *flow.State) {
+		for _, fact := range st.Facts() {
+			if strings.HasPrefix(fact, pre) {
+				st.Set(fact[:len(fact)-2], flow.Unknown)
+			}
+		}
+	}
+	conf.OnCall = func(st *flow.State, call *ast.CallExpr, callee types.Object, deferred bool) {
+		if onCall != nil {
+			onCall(st, call, callee, deferred)
+		}
+		clear(st)
+		fo, ok := callee.(*types.Func)
+		if !ok || deferred || call.Ellipsis.IsValid() {
+			return
+		}
+		g := inl(call, fo)
+		if g == nil {
+			return
+		}
+		pairs := muxAliasPairs(f, call, g)
+		if len(pairs) == 0 {
+			return
+		}
+		tag := pre + sprintf("%d:", g.Body.Pos())
+		for _, fact := range st.Facts() {
+			k, v := fact[:len(fact)-2], flow.True
+			if fact[len(fact)-1] == 'F' {
+				v = flow.False
+			}
+			if strings.HasPrefix(k, "ev:") || strings.HasPrefix(k, "engine:") {
+				continue
+			}
+			nk, changed := k, false
+			for _, p := range pairs {
+				if r, ok := muxReplaceTok(nk, p[0], p[1]); ok {
+					nk, changed = r, true
+				}
+			}
+			if changed {
+				st.Set(tag+k+"\x00"+muxCanonEqKey(nk), v)
+			}
+		}
+	}
+	conf.OnBlock = func(st *flow.State, b *cfg.Block) {
+		if b.Index == 0 && b.Stmt != nil {
+			tag := pre + sprintf("%d:", b.Stmt.Pos())
+			for _, fact := range st.Facts() {
+				if !strings.HasPrefix(fact, tag) {
+					continue
+				}
+				key, v := fact[:len(fact)-2], flow.True
+				if fact[len(fact)-1] == 'F' {
+					v = flow.False
+				}
+				st.Set(key, flow.Unknown)
+				ks := strings.SplitN(key[len(tag):], "\x00", 2)
+				if len(ks) != 2 {
+					continue
+				}
+				for _, k := range ks {
+					if st.Get(k) == flow.Unknown {
+						st.Set(k, v)
+					}
+				}
+			}
+		}
+		if onBlock != nil {
+			onBlock(st, b)
+		}
+	}
+	return analyze(c, f, conf)
+}
+
+// muxAliasPairs lists (argument rendering, parameter rendering) for the receiver / parameters the
+// engine binds as aliases: the operand is an identifier or selector chain and the callee does not
+// assign the parameter (mirrors flow/inline.go binds()).
+func muxAliasPairs(f *flow.Func, call *ast.CallExpr, g *flow.Func) [][2]string {
+	fd, ok := g.Node.(*ast.FuncDecl)
+	if !ok {
+		return nil
+	}
+	var out [][2]string
+	add := func(p *ast.Ident, a ast.Expr) {
+		if p == nil || p.Name == "_" || a == nil || !muxStableOperand(a) {
+			return
+		}
+		o := f.Info.Defs[p]
+		if o == nil || muxAssignedIn(f.Info, g.Body, o) {
+			return
+		}
+		from, to := f.Render(a), f.Render(p)
+		if from != to && from != "" {
+			out = append(out, [2]string{from, to})
+		}
+	}
+	if fd.Recv != nil && len(fd.Recv.List) == 1 && len(fd.Recv.List[0].Names) == 1 {
+		if sel, ok := ast.Unparen(call.Fun).(*ast.SelectorExpr); ok {
+			add(fd.Recv.List[0].Names[0], sel.X)
+		}
+	}
+	i := 0
+	for _, fld := range fd.Type.Params.List {
+		if len(fld.Names) == 0 {
+			i++
+			continue
+		}
+		for _, nm := range fld.Names {
+			if i < len(call.Args) {
+				add(nm, call.Args[i])
+			}
+			i++
+		}
+	}
+	return out
+}
+
+func muxStableOperand(x ast.Expr) bool {
+	switch t := ast.Unparen(x).(type) {
+	case *ast.Ident:
+		return t.Name != "_" && t.Name != "nil"
+	case *ast.SelectorExpr:
+		return muxStableOperand(t.X)
+	}
+	return false
+}
+
+// muxAssignedIn: variable o is assigned, inc/dec'ed, a range variable or has its address taken in body.
+func muxAssignedIn(info *types.Info, body ast.Node, o types.Object) bool {
+	is := func(x ast.Expr) bool {
+		id, ok := ast.Unparen(x).(*ast.Ident)
+		return ok && (info.Uses[id] == o || info.Defs[id] == o)
+	}
+	found := false
+	ast.Inspect(body, func(n ast.Node) bool {
+		switch s := n.(type) {
+		case *ast.AssignStmt:
+			for _, l := range s.Lhs {
+				if is(l) {
+					found = true
+				}
+			}
+		case *ast.IncDecStmt:
+			if is(s.X) {
+				found = true
+			}
+		case *ast.RangeStmt:
+			if (s.Key != nil && is(s.Key)) || (s.Value != nil && is(s.Value)) {
+				found = true
+			}
+		case *ast.UnaryExpr:
+			if s.Op == token.AND {
+				x := s.X
+				for {
+					switch t := ast.Unparen(x).(type) {
+					case *ast.SelectorExpr:
+						x = t.X
+						continue
+					case *ast.IndexExpr:
+						x = t.X
+						continue
+					}
+					break
+				}
+				if is(x) {
+					found = true
+				}
+			}
+		}
+		return !found
+	})
+	return found
+}
+
+func muxIdentByte(c byte) bool {
+	return c == '_' || (c >= '0' && c <= '9') || (c >= 'a' && c <= 'z') || (c >= 'A' && c <= 'Z') || c >= 0x80
+}
+
+// muxReplaceTok mirrors flow.replaceToken: occurrences of tok in s that are not part of a longer
+// identifier / position.
+func muxReplaceTok(s, tok, repl string) (string, bool) {
+	var sb strings.Builder
+	changed := false
+	i := 0
+	for i < len(s) {
+		j := strings.Index(s[i:], tok)
+		if j < 0 {
+			break
+		}
+		j += i
+		end := j + len(tok)
+		okBefore := j == 0 || !muxIdentByte(s[j-1])
+		okAfter := end == len(s) || !(s[end] >= '0' && s[end] <= '9')
+		if last := tok[len(tok)-1]; !(last >= '0' && last <= '9') && end < len(s) && muxIdentByte(s[end]) {
+			okAfter = false
+		}
+		if okBefore && okAfter {
+			sb.WriteString(s[i:j])
+			sb.WriteString(repl)
+			changed = true
+		} else {
+			sb.WriteString(s[i:end])
+		}
+		i = end
+	}
+	sb.WriteString(s[i:])
+	return sb.String(), changed
+}
+
+// muxCanonEqKey mirrors flow.canonEq: operand order of `eq:a==b` keys between two expressions.
+func muxCanonEqKey(k string) string {
+	if !strings.HasPrefix(k, "eq:") {
+		return k
+	}
+	i := strings.LastIndex(k, "==")
+	if i < 0 {
+		return k
+	}
+	a, b := k[3:i], k[i+2:]
+	if b == "" {
+		return k
+	}
+	if c := b[0]; c == '"' || (c >= '0' && c <= '9') || c == '-' || c == '@' || b == "true" || b == "false" {
+		return k
+	}
+	if b < a {
+		a, b = b, a
+	}
+	return "eq:" + a + "==" + b
 }
